@@ -21,7 +21,7 @@ func init() {
 			"Does not decide: file contents versus an event log, behaviour under I/O failures.",
 		RuleDocs: []string{
 			"C20.R1 typestate / must-pass-through on WritingState.Stop and Start; creation sites",
-			"C20.R2 occurrence counting of writes per call; argument provenance; control dependence of the line write",
+			"C20.R2 occurrence counting of writes per call; argument provenance; control dependence of the line write; the label recorded for UNPAUSE is a part of the request text as it came (slicing, trimming, cutting a prefix), not of a copy changed by strings.ToUpper or the like",
 			"C20.R3 who-may-touch the handle fields; a side file with a buffered writer is written only through it",
 			"C20.R2 (additions) each block handler is called exactly once per block outside any loop; every successful return of the UNPAUSE arm has passed the label test",
 		},
